@@ -147,6 +147,35 @@ def _context_manager_pairs(prog, rep, inventory):
         handled.add((ent.qual, g))
         if ext is not None:
             handled.add((ext.qual, g))
+        init_save = False
+        if not saves:
+            # the previous value may be captured when the instance is created: `self.A = <global>` in __init__
+            ini = C.methods.get("__init__")
+            if ini is not None:
+                al0 = prog.func_aliases(ini)
+                self_i = ini.node.args.args[0].arg
+                for st in ini.node.body:
+                    if isinstance(st, ast.Assign) and len(st.targets) == 1 and isinstance(st.targets[0], ast.Attribute) and isinstance(st.targets[0].value, ast.Name) and st.targets[0].value.id == self_i:
+                        if reads_global(st.value, al0):
+                            saves.append((-1, st.targets[0].attr))
+                            init_save = True
+                        elif isinstance(st.value, ast.Name):
+                            # self.A = <parameter> whose DEFAULT is the global read: evaluated once, when the class body
+                            # is executed, not when the instance is created
+                            a_ = ini.node.args
+                            defaults = dict(zip([x.arg for x in a_.args][::-1], a_.defaults[::-1]))
+                            d_ = defaults.get(st.value.id)
+                            if d_ is not None and reads_global(d_, al0):
+                                uses_default = []
+                                for f_ in prog.functions.values():
+                                    for n_ in walk_local(f_.node, include_self=False):
+                                        if isinstance(n_, ast.Call) and dotted(n_.func) == cname and st.value.id not in [k.arg for k in n_.keywords] and len(n_.args) < [x.arg for x in a_.args].index(st.value.id):
+                                            uses_default.append((f_, n_))
+                                if uses_default:
+                                    f_, n_ = uses_default[0]
+                                    rep.ob("R20.2", construct, False, f"{cname}.__init__ takes the value to restore from the DEFAULT of parameter `{st.value.id}` (= {src(d_)}), which is evaluated once at import; {f_.name} creates the instance without passing it, so on exit {g} is set to the import-time value, not to the one that was active before the solve", loc=f"{ini.module.rel}:{ini.node.lineno}", detail="save-at-import")
+                                    saves.append((-1, st.targets[0].attr))
+                                    init_save = True
         if not saves:
             rep.ob("R20.2", construct, False, f"{g} is overridden in {cname}.__enter__ but its previous value is never saved on the instance: __exit__ cannot restore it", loc=ent.loc, detail="no-save")
             continue
@@ -156,7 +185,7 @@ def _context_manager_pairs(prog, rep, inventory):
             rep.undecided(f"{construct}: __enter__ overrides {g} inside a nested block; only straight-line enter bodies are recognised")
             continue
         ok = bool(overrides) and all(i > saves[0][0] for i, _ in overrides)
-        rep.ob("R20.2", construct, ok, f"__enter__ saves the previous {g} in self.{attr} before overriding it" if ok else f"__enter__ overrides {g} before saving its previous value in self.{attr}", loc=ent.loc, detail="save-before-override")
+        rep.ob("R20.2", construct, ok, (f"the previous {g} is captured in self.{attr} when the instance is created, before __enter__ overrides it" if init_save else f"__enter__ saves the previous {g} in self.{attr} before overriding it") if ok else f"__enter__ overrides {g} before saving its previous value in self.{attr}", loc=ent.loc, detail="save-before-override")
         # nothing that can raise after the override (an exception in __enter__ skips __exit__)
         last = max(i for i, _ in overrides) if overrides else -1
         tail = ent.node.body[last + 1:]
@@ -203,7 +232,7 @@ def _context_manager_pairs(prog, rep, inventory):
                         if isinstance(t, ast.Attribute) and t.attr == attr and isinstance(t.value, ast.Name) and t.value.id == m.node.args.args[0].arg:
                             if m.name == "__enter__" and reads_global(getattr(n, "value", None), aliases):
                                 continue
-                            if m.name == "__init__" and isinstance(getattr(n, "value", None), ast.Constant):
+                            if m.name == "__init__" and (isinstance(getattr(n, "value", None), ast.Constant) or init_save):
                                 continue
                             stray.append((m, n))
         rep.ob("R20.2", construct, not stray, f"self.{attr} is written only by the save in __enter__" if not stray else f"self.{attr} is also written in {stray[0][0].name} (`{src(stray[0][1])[:50]}`): the restore may not install the original", loc=f"{C.module.rel}:{stray[0][1].lineno}" if stray else C.loc, detail="save-reassigned")
@@ -220,6 +249,15 @@ def _context_manager_pairs(prog, rep, inventory):
                         rep.undecided(f"{construct}: instance created at {fi.module.rel}:{n.lineno} is not bound to a local name or used directly in `with`")
                 if isinstance(n, ast.Call) and isinstance(n.func, ast.Attribute) and n.func.attr in ("__enter__", "__exit__") and isinstance(n.func.value, ast.Name) and n.func.value.id in inst:
                     rep.ob("R20.2", construct, False, f"{fi.name} calls {src(n.func)} by hand: the exit is no longer guaranteed by the with statement", loc=f"{fi.module.rel}:{n.lineno}", detail="manual-enter")
+        if init_save:
+            # captured at creation: the instance must be created where it is entered (a module-level / long-lived
+            # instance would restore a stale value)
+            for fi in prog.functions.values():
+                for n in walk_local(fi.node, include_self=False):
+                    if isinstance(n, ast.withitem) and isinstance(n.context_expr, ast.Name):
+                        vals = [v for v in local_assignments(fi.node).get(n.context_expr.id, []) if isinstance(v, ast.Call) and dotted(v.func) == cname]
+                        if not vals and any(isinstance(v, ast.Call) and dotted(v.func) == cname for m_ in prog.modules.values() for st_ in m_.tree.body if isinstance(st_, ast.Assign) for v in [st_.value]):
+                            rep.ob("R20.2", construct, False, f"a long-lived {cname} instance is entered in {fi.name}: the value it restores was captured when the instance was created, not before this solve", loc=f"{fi.module.rel}:{n.context_expr.lineno}", detail="stale-save")
         if uses == 0:
             rep.undecided(f"{construct}: no use of the context manager found")
     return handled
